@@ -8,7 +8,7 @@ C19), (Q_int) no machine-integer overflow is possible within the bounds.  The ca
 import os, sys, json, time, tempfile, shutil, itertools
 import z3
 
-BOUNDS = {'quick': dict(R=2, C=2, NNZ=3, M=2, L=5, INC=2, OFF=1), 'thorough': dict(R=3, C=2, NNZ=4, M=3, L=7, INC=2, OFF=2)}
+BOUNDS = {'quick': dict(R=2, C=2, NNZ=3, M=2, L=5, INC=2, OFF=1), 'thorough': dict(R=3, C=2, NNZ=3, M=2, L=6, INC=3, OFF=2)}       # (NNZ = 4 / M = 3 were probed: the value obligations of the transposed gemv are then not decided within minutes)
 
 def _abs(v): return z3.If(v >= 0, v, -v)
 def _max(a, b): return z3.If(a >= b, a, b)
@@ -167,7 +167,34 @@ def oracle_gemm_p(sc, B_, info, final):
         obl.append(('%s is not written' % nm, z3.BoolVal(('arr', nm) not in final)))
     return obl
 
-KERNELS = {'gemm_p': (build_gemm_p, oracle_gemm_p, [('N',), ('T',)]),
+# ------------------------------------------------------------------------------------------ element lookup (binary search)
+
+def build_getitem(mod, B_):
+    from vp.llsym import scen_kernel as K, exec as X
+    sc = K.KernelScenario(mod)
+    I = z3.Int
+    nrows, ncols, i, j = I('nrows'), I('ncols'), I('i'), I('j')
+    sc.new_ccs('A', nrows, ncols, B_['NNZ'] + 1, B_['C'])
+    # callers (indexing code) pass 0 <= i < nrows, 0 <= j < ncols
+    sc.pre += [nrows <= B_['R'] + 2, i >= 0, i < nrows, j >= 0, j < ncols]
+    sc.nums['out'] = z3.Real('out_before')
+    args = [X.Ptr('spm:A', 0), i, j, X.Ptr('num:out', 0)]
+    return sc, 'spmatrix_getitem_ij', args, dict(i=i, j=j, nrows=nrows, ncols=ncols)
+
+def oracle_getitem(sc, B_, info, final, ret=None):
+    i, j = info['i'], info['j']
+    c = sc.ccs['A']
+    R = sc.arrays['A.rowind']['init']; C = sc.arrays['A.colptr']['init']
+    stored = z3.Or(*[z3.And(z3.Select(C, j) <= k, k < z3.Select(C, j + 1), z3.Select(R, k) == i) for k in range(c.nnz_cap)])
+    val = final.get(('num:out', 0))
+    obl = [('returns 1 exactly when (i, j) is a stored entry', (ret == 1) == stored if not isinstance(ret, int) else (z3.BoolVal(ret == 1) == stored)),
+           ('the value is the stored value, or zero for an entry that is not stored', z3.BoolVal(False) if val is None else val == sc.dense_entry('A', i, j, B_['C']))]
+    for nm in ('A.colptr', 'A.rowind', 'A.values'):
+        obl.append(('%s is not written' % nm, z3.BoolVal(('arr', nm) not in final)))
+    return obl
+
+KERNELS = {'getitem': (build_getitem, oracle_getitem, [()]),
+           'gemm_p': (build_gemm_p, oracle_gemm_p, [('N',), ('T',)]),
            'gemv': (build_gemv, oracle_gemv, [(t, a, b) for t in 'NT' for a in (1, -1) for b in (1, -1)]),
            'symv': (build_symv, oracle_symv, [(t, a, b) for t in 'UL' for a in (1, -1) for b in (1, -1)])}
 
@@ -184,6 +211,7 @@ def job(cfg):
     extra_pre = [genuine_block(info)] if cfg['kernel'] in ('gemv', 'symv') else []
     ex = X.Executor(mod, sc, max_paths=cfg.get('max_paths', 20000), branch_timeout_ms=3000, loop_bound=((B['NNZ'] + 1)*(B['NNZ'] + 1) + 2) if cfg['kernel'] == 'gemm_p' else (B['NNZ'] + B['M'] + 2))
     ex.math_ints = True; ex.fmul = K.fm
+    if cfg['kernel'] == 'getitem': ex.inline = {'bsearch_int'}
     res = {'kernel': cfg['kernel'], 'variant': cfg['variant'], 'paths': 0, 'kinds': {}, 'obl': {'total': 0, 'unsat': 0, 'sat': 0, 'unknown': 0},
            'solver_s': 0.0, 'findings': [], 'unsupported': [], 'sample': None, 'instructions': 0}
     st = X.State()
@@ -211,6 +239,7 @@ def job(cfg):
     names = sorted(set(['nrows', 'ncols', 'm', 'n', 'oA', 'ix', 'iy', 'ox', 'oy', 'LX', 'LY', 'alpha', 'beta', 'A_cap']))
     def render(model):
         if cfg['kernel'] == 'gemm_p': return render_gemm(model)
+        if cfg['kernel'] == 'getitem': return render_getitem(model)
         d = {}
         for nm in names:
             v = model.eval(z3.Int(nm) if nm not in ('alpha', 'beta') else z3.Real(nm), model_completion=True); d[nm] = str(v)
@@ -220,6 +249,12 @@ def job(cfg):
         nnz = int(d['colptr'][-1]) if d['colptr'] else 0
         d['rowind'] = [ev('A.rowind', k) for k in range(nnz)]; d['values'] = [ev('A.values', k) for k in range(nnz)]
         d['x'] = [ev('x', k) for k in range(int(d['LX']))]; d['y'] = [ev('y', k) for k in range(int(d['LY']))]
+        return d
+    def render_getitem(model):
+        d = {nm: str(model.eval(z3.Int(nm), model_completion=True)) for nm in ('nrows', 'ncols', 'i', 'j', 'A_cap')}
+        ev = lambda a, k_: str(model.eval(z3.Select(sc.arrays[a]['init'], k_), model_completion=True))
+        cp = [ev('A.colptr', t) for t in range(int(d['ncols']) + 1)]; nnz = int(cp[-1])
+        d['colptr'] = cp; d['rowind'] = [ev('A.rowind', t) for t in range(nnz)]; d['values'] = [ev('A.values', t) for t in range(nnz)]
         return d
     def render_gemm(model):
         d = {}
@@ -266,7 +301,7 @@ def job(cfg):
                                         'model': render(mdl), 'variant': cfg['variant'], 'mem': True})
             elif r != 'unsat': res['unsupported'].append('Q_mem undecided')
         # Q_val / Q_frame
-        for label, f in oracle(sc, B, info, p['mem']):
+        for label, f in (oracle(sc, B, info, p['mem'], p['ret']) if cfg['kernel'] == 'getitem' else oracle(sc, B, info, p['mem'])):
             r, mdl = query(p['pc'] + [z3.Not(f)])
             if r == 'sat':
                 res['findings'].append({'key': '%s:value' % cfg['kernel'], 'text': label, 'model': render(mdl), 'variant': cfg['variant']})
@@ -297,6 +332,14 @@ def mk_sp(pref=''):
 def vec(name, L):
     v = [fl(t) for t in m[name]]
     return matrix(v, (len(v), 1), 'd') if v else matrix(0.0, (0, 1))
+if kern == 'getitem':
+    A = mk_sp(); i, j = int(m['i']), int(m['j'])
+    print('CALL A[%d, %d] with A = %s sparse %r' % (i, j, A.size, list(zip(A.I, A.J, A.V))), flush=True)
+    ref = matrix(A)[i, j]
+    print('REF ' + json.dumps([ref]), flush=True)
+    try: got = [A[i, j]]
+    except Exception as e: got = 'raises %s' % type(e).__name__
+    print('GOT ' + json.dumps(got), flush=True)
 if kern == 'gemm_p':
     A = mk_sp('A'); C = mk_sp('C'); k, n, mm = int(m['k']), int(m['n']), int(m['m'])
     tB = var[0]
@@ -414,7 +457,7 @@ def main(tier, pid='C16', ev=None):
             if k in known: known_hits.append((k, known[k]['what'])); continue
             violations.append((k, rp, '%s -> %s' % (fs[0]['text'], rep)))
         ev.cov.update({'states': max(1, paths), 'transitions': max(1, ev.obl['total']), 'traces_validated_against_impl': 0, 'instructions_interpreted': instr,
-                       'functions_encoded': ['sparse.c: sp_dgemv, sp_dsymv, sp_dgemm (A sparse transposed, B dense, C sparse, partial update)'], 'source_hash': ir.src_hash(cfile),
+                       'functions_encoded': ['sparse.c: sp_dgemv, sp_dsymv, sp_dgemm (A sparse transposed, B dense, C sparse, partial update), spmatrix_getitem_ij + bsearch_int'], 'source_hash': ir.src_hash(cfile),
                        'bounds': json.dumps(BOUNDS[tier]) + ' (R rows, C columns, NNZ stored entries, M = max m,n, L = max vector length, INC = max |increment|, OFF = max vector offset); loops unrolled to these bounds'})
         ev.assumptions += ["the argument checks of the base.c wrapper (base_gemv) are transcribed as the kernel's precondition, the wrapper itself is not executed",
                            'offsetA addresses a genuine m x n block (no wrap-around of a column): for wrapped blocks the dense BLAS call reads across columns, which the sparse kernel does not imitate (outside)',
